@@ -463,6 +463,91 @@ void c09_constant(vf::Tape & t, vf::Ctx & ctx)
   ctx.require("constant: stops after at most one iteration", res.iter <= 1);
 }
 
+// ---- acceptance boundary: starts on either side of the point where the first trial step stops being accepted -------
+// A step-acceptance rule that lets marginally uphill steps through only shows for gain ratios in a narrow band around
+// the threshold (0.1% of random starts).  The band is found, not hoped for: along a segment of starts the observable
+// "did max_iter = 1 move the argument" flips where the gain ratio crosses the threshold; bisection to adjacent doubles
+// gives the flip, and starts at distances 1e-15 .. 1e-3 on both sides of it are then run under all clauses.
+struct Atan1
+{
+  Eigen::Matrix<double, 1, 1> operator()(const Eigen::Matrix<double, 1, 1> & x) const { return Eigen::Matrix<double, 1, 1>(std::atan(x(0))); }
+};
+struct Rosen
+{
+  double k;
+  Eigen::Vector2d operator()(const Eigen::Vector2d & x) const { return Eigen::Vector2d(k * (x(1) - x(0) * x(0)), 1 - x(0)); }
+};
+struct Bump2  // non-convex residual with several basins
+{
+  double a, b;
+  Eigen::Vector2d operator()(const Eigen::Vector2d & x) const { return Eigen::Vector2d(std::sin(a * x(0)) + x(1), std::atan(b * x(1)) + 0.3 * x(0) * x(0)); }
+};
+
+template<class F, class X>
+void boundary_probe(const char * nm, vf::Tape & t, vf::Ctx & ctx, const F & f, const X & p, const X & q)
+{
+  Opts o1{1, 1e-300, 1e-300, t.flag()};
+  ctx.label(o1.disney ? "strategy:Disney" : "strategy:Ceres");
+  const bool numerical = t.flag();
+  auto at = [&](double s) { return X(p + s * (q - p)); };
+  auto one = [&](double s) {
+    const X x0 = at(s);
+    const Run r = numerical ? run_once<diff::Type::Numerical>(f, o1, 1, x0) : run_once<diff::Type::Default>(f, o1, 1, x0);
+    return std::make_pair(!same_bits(r.final_args, flat_args(x0)), r.cost.empty() ? 0.0 : r.cost.back() - r.cost.front());
+  };
+  double lo = 0, hi = 1;
+  const bool mlo = one(lo).first, mhi = one(hi).first;
+  std::vector<double> probes{0.0, 1.0, t.unit(), t.unit()};
+  if (mlo != mhi) {
+    for (int it = 0; it < 80 && std::nextafter(lo, hi) != hi; ++it) {
+      const double mid = 0.5 * (lo + hi);
+      if (one(mid).first == mlo) lo = mid; else hi = mid;
+    }
+    ctx.set_nontrivial();
+    ctx.label("boundary:found");
+    for (double d : {0.0, 1e-15, 1e-13, 1e-11, 1e-9, 1e-8, 1e-7, 1e-6, 1e-5, 1e-4, 1e-3, 1e-2}) {
+      probes.push_back(std::min(1.0, hi + d));
+      probes.push_back(std::max(0.0, lo - d));
+    }
+  } else {
+    ctx.label(mlo ? "boundary:none(all accepted)" : "boundary:none(all rejected)");
+  }
+  if (ctx.want_desc) ctx.desc << nm << " segment p=" << show(p) << " q=" << show(q) << " flip in [" << vf::str(lo) << "," << vf::str(hi) << "] " << o1.str() << (numerical ? " Numerical" : " Default");
+  double worst = 0;
+  for (double s : probes) {
+    const auto [moved, dc] = one(s);
+    const double c0 = f(at(s)).norm();
+    worst = std::max(worst, dc / std::max(c0, 1e-300));
+    (void)moved;
+  }
+  ctx.le(std::string(nm) + ": a single iteration never increases the cost (starts on both sides of the acceptance boundary)", worst, 1e-12);
+  // full runs from the two starts next to the flip: every history clause
+  Opts o{50, 1e-10, 1e-10, o1.disney};
+  auto dist = [](const std::vector<double> &) { return 0.0; };
+  for (double s : {lo, hi}) {
+    const X x0 = at(s);
+    const double E = 8 * kEps * std::max(1.0, f(x0).norm());
+    if (numerical) check_problem<diff::Type::Numerical>(nm, ctx, f, o, E, dist, false, x0);
+    else check_problem<diff::Type::Default>(nm, ctx, f, o, E, dist, false, x0);
+  }
+}
+
+void c09_boundary(vf::Tape & t, vf::Ctx & ctx)
+{
+  const auto fam = t.choice(3);
+  if (fam == 0) {
+    using X = Eigen::Matrix<double, 1, 1>;
+    const double sg = t.flag() ? -1 : 1;
+    boundary_probe("boundary<atan>", t, ctx, Atan1{}, X(sg * t.range(0.2, 1.2)), X(sg * t.range(1.6, 6.0)));
+  } else if (fam == 1) {
+    const Rosen f{t.choice(2) == 0 ? 10.0 : t.lrange(1.0, 100.0)};
+    boundary_probe("boundary<rosenbrock>", t, ctx, f, Eigen::Vector2d(t.sym(2.0), t.sym(2.0)), Eigen::Vector2d(t.sym(2.0), t.sym(2.0)));
+  } else {
+    const Bump2 f{t.range(0.5, 4.0), t.range(0.5, 8.0)};
+    boundary_probe("boundary<bump>", t, ctx, f, Eigen::Vector2d(t.sym(3.0), t.sym(3.0)), Eigen::Vector2d(t.sym(3.0), t.sym(3.0)));
+  }
+}
+
 struct Reg
 {
   Reg()
@@ -481,6 +566,7 @@ struct Reg
     add("align<SO3>", &c09_align<SO3d, 3>, 1.0, 120);
     add("align<SO3,analytic>", &c09_align_analytic, 0.8, 120);
     add("constant", &c09_constant, 0.3, 30);
+    add("acceptance-boundary", &c09_boundary, 1.0, 24);
 #endif
 #if VF_UNIT == 2 || VF_NUNITS < 3
     add("align<SE2>", &c09_align<SE2d, 2>, 1.0, 120);
